@@ -359,6 +359,7 @@ struct TupSys<IsPair, K, TL<Ts...>, TL<Us...>> {
         if (p != nullptr) { cls += "+" + st(p->m); }
         note_case(cx, name(), mshow(m), a, p != nullptr ? mshow(p->m) : std::string());
         std::optional<M> nm; // the model's new value when the action constructs
+        if constexpr (tracked) { (void)registry().take_errors(); } // stale entries from rebuilt prefixes were reported when first explored
         switch (a.k) {
         case c_default: {
             cls = "general";
@@ -680,7 +681,10 @@ struct TupSys<IsPair, K, TL<Ts...>, TL<Us...>> {
         if constexpr (tracked) {
             auto const total = registry().live_count();
             auto const want  = (std::size_t(mc::is_tracked_v<Ts>) + ...) * (p != nullptr ? 2U : 1U);
-            if (total != want) { cx.fail("C03", subj, cls + "/live-total", cat("live instrumented elements after the operation: ", total, ", expected: ", want)); }
+            if (first_execution(cx) && total != want) {
+                cx.fail("C03", subj, cls + "/live-total", cat("live instrumented elements after the operation: ", total, ", expected: ", want));
+                purge_outside(s.lo(), s.hi(), p != nullptr ? p->lo() : nullptr, p != nullptr ? p->hi() : nullptr);
+            }
         }
     }
 
@@ -827,14 +831,16 @@ struct TupSys<IsPair, K, TL<Ts...>, TL<Us...>> {
     void retire(State& s, Cx& cx) const
     {
         if (s.dead) { return; }
+        auto const kase = cat(name(), ": <any history reaching ", mshow(s.m), "> => destroy the owner");
         s.v->~V();
         s.dead = true;
         if constexpr (tracked) {
             auto const subj = cat(family(), "::~", family());
-            drain_lifetimes(cx, subj, st(s.m));
+            drain_lifetimes_at_retire(cx, subj, st(s.m), kase);
             auto const live = registry().live_in(s.lo(), s.hi());
             if (live != 0) {
-                cx.fail("C03", subj, st(s.m) + "/leak", cat(live, " element(s) still alive after the owner was destroyed"));
+                cx.failed = true;
+                cx.r.violation("C03", subj, st(s.m) + "/leak", kase, cat(live, " element(s) still alive after the owner was destroyed"));
                 registry().forget_range(s.lo(), s.hi());
             }
         }
@@ -868,6 +874,8 @@ int main(int argc, char** argv)
 #endif
 #if !defined(MC_PART) || MC_PART == 3
     m.job("tuple<int,int,int>/k3", both, [](mc::Reporter& r) { explore<TupSys<false, 3, TL<int, int, int>, TL<long, short, char>>>(r); });
+    m.job("tuple<Tracked,Tracked,Tracked>/k3", th, [](mc::Reporter& r) { explore<TupSys<false, 3, TL<TCM, TCM, TCM>, TL<int, short, char>>>(r); });
+    m.job("pair<TrackedMoveOnly,TrackedCopyOnly>/k3", th, [](mc::Reporter& r) { explore<TupSys<true, 3, TL<TMO, TCO>, TL<int, short>>>(r); });
     m.job("tuple<int,int,int>/k4", th, [](mc::Reporter& r) { explore<TupSys<false, 4, TL<int, int, int>, TL<long, short, char>>>(r); });
 #endif
 #if !defined(MC_PART) || MC_PART == 4
